@@ -403,7 +403,11 @@ OPN = {1: 'new', 2: 'add_signal', 3: 'clone handle', 4: 'drop handle', 5: 'drop 
 def shrink(h, kind, budget=6):
     """greedy one-operation removal, every round in one probe invocation"""
     cur = h
+    import time as _t
+    t0 = _t.time()
     for _ in range(budget * 10):
+        if _t.time() - t0 > 90:
+            break             # (histories that hang cost their time limit each)
         cands = [cur[:j] + cur[j + 1:] for j in range(len(cur))]
         cands = [c for c in cands if c]
         if not cands:
@@ -548,6 +552,10 @@ def run(ctx, only=None):
 
     mismatches, found = [], {}
     for hi, (h, (recs, end)) in enumerate(zip(hists, impl)):
+        if end == 'skipped':
+            # (the probe stops running histories after 5 of them did not end: the hang is reported through those)
+            ctx.coverage['histories_skipped_after_hangs'] = ctx.coverage.get('histories_skipped_after_hangs', 0) + 1
+            continue
         ctx.evaluations += len(recs)
         for k, rec in enumerate(recs):
             op = h[k]
